@@ -625,20 +625,23 @@ func (self *visitorUserNode) OnArrayBegin(capacity int) error {
 	}
 	var err error
 	curNodeLenPos := -1
-	if self.globalFieldDesc != nil {
-		// PackedList: encode Tag、Len
-		if self.globalFieldDesc.Type().IsPacked() {
-			if err = self.p.AppendTag(self.globalFieldDesc.Number(), proto.BytesType); err != nil {
-				return meta.NewError(meta.ErrWrite, "append prefix tag failed", nil)
-			}
-			self.p.Buf, curNodeLenPos = binary.AppendSpeculativeLength(self.p.Buf)
-		}
-		if err = self.push(false, false, true, self.globalFieldDesc, curNodeLenPos); err != nil {
-			return err
-		}
-		// NOTICE: the field is on the stack now. If it stayed here, the end of an empty array would be taken for the end of a basic value
-		self.globalFieldDesc = nil
+	// NOTICE: an array is the value of a repeated field only: not of a singular field or a map value, not an element of
+	// another array, not the root
+	if self.globalFieldDesc == nil || !self.globalFieldDesc.Type().IsList() {
+		return newError(meta.ErrDismatchType, "json array doesn't belong to a repeated field", nil)
 	}
+	// PackedList: encode Tag、Len
+	if self.globalFieldDesc.Type().IsPacked() {
+		if err = self.p.AppendTag(self.globalFieldDesc.Number(), proto.BytesType); err != nil {
+			return meta.NewError(meta.ErrWrite, "append prefix tag failed", nil)
+		}
+		self.p.Buf, curNodeLenPos = binary.AppendSpeculativeLength(self.p.Buf)
+	}
+	if err = self.push(false, false, true, self.globalFieldDesc, curNodeLenPos); err != nil {
+		return err
+	}
+	// NOTICE: the field is on the stack now. If it stayed here, the end of an empty array would be taken for the end of a basic value
+	self.globalFieldDesc = nil
 	return err
 }
 
